@@ -533,6 +533,11 @@ def main(tier):
             sig = dict(clause=clause.split(":")[0], family=fam)
             if ":" in clause:
                 sig["exc"] = clause.split(":", 1)[1]
+            if sig["clause"] == "strain-bound" or sig.get("exc") == "NoReturn":
+                # narrow to the scenario's discrete parameter / box / location classes
+                sig["par"] = rec["scen"]["par"]
+                sig["box"] = rec["scen"]["box"]
+                sig["loc"] = rec["scen"]["loc"]["kind"]
             by_sig.setdefault(json.dumps(sig, sort_keys=True), []).append((tid, line))
         clauses = ("pathline-returned", "timestamps-increasing", "ends-at-t0", "ends-at-final-location", "follows-velocity", "inside-box", "strain-bound")
         nfam = {}
